@@ -20,6 +20,22 @@ impl DeError for SimError {
     }
 }
 
+/// Deserializer of one value: a u32, or a unit when the value type asks for one (zero-sized values).
+struct ValDe(u32);
+impl<'de> Deserializer<'de> for ValDe {
+    type Error = SimError;
+    fn deserialize_any<V: Visitor<'de>>(self, visitor: V) -> Result<V::Value, SimError> {
+        visitor.visit_u32(self.0)
+    }
+    fn deserialize_unit<V: Visitor<'de>>(self, visitor: V) -> Result<V::Value, SimError> {
+        visitor.visit_unit()
+    }
+    serde::forward_to_deserialize_any! {
+        bool i8 i16 i32 i64 i128 u8 u16 u32 u64 u128 f32 f64 char str string bytes byte_buf option
+        unit_struct newtype_struct seq tuple tuple_struct map struct enum identifier ignored_any
+    }
+}
+
 /// A stream of (key id, value) pairs (maps) or ids (sequences).
 pub struct SimDeserializer {
     pub items: Vec<(u32, u32)>,
@@ -56,8 +72,7 @@ impl<'de> MapAccess<'de> for Access {
     }
     fn next_value_seed<V: DeserializeSeed<'de>>(&mut self, seed: V) -> Result<V::Value, SimError> {
         let v = self.pending_val.take().ok_or_else(|| SimError("value without key".into()))?;
-        let d: U32Deserializer<SimError> = v.into_deserializer();
-        seed.deserialize(d)
+        seed.deserialize(ValDe(v))
     }
     fn size_hint(&self) -> Option<usize> {
         self.hint
